@@ -18,6 +18,8 @@ ANGLES = {
  "invocation": "the way the plugin is INVOKED or the run-time ENVIRONMENT of the emitted code (plugin parameters such as paths=source_relative, module=, M mappings, generate_mock, format; several files / packages / Go packages per invocation and their order; files without package or go_package; locale, time zone, GOMAXPROCS, HTTP/1.1 keep-alive or connection reuse of the emitted client and server)",
  "ts": "the TYPESCRIPT side: something in what protoc-gen-ts-client or protoc-gen-ts-server emit (internal/tsclientgen, internal/tsservergen, internal/tscommon) — URL building, option handling, error classes, route descriptors, header validation, type declarations — that only a particular value, option, declaration shape or sequence of calls exposes",
  "openapi": "the OPENAPI generator (internal/openapiv3, cmd/protoc-gen-openapiv3): schema conversion, parameters, responses, constraints, examples, component naming, rendering — broken only for a particular combination of declarations or parameters",
+ "perf": "a PERFORMANCE optimisation in the generators or in the code they emit (caching, pooling, lazy initialisation, pre-computation, fewer allocations, parallelism, early exits) that is subtly wrong for some inputs, sequences or schedules",
+ "feature": "a small, plausible NEW FEATURE or behaviour improvement (the kind a maintainer would welcome: better error messages, one more supported case, a convenience, stricter or laxer handling of an edge) whose implementation is subtly wrong for some inputs",
  "free": "anything specific of your choosing (a particular interleaving, multi-step sequence, unusual input, or two cooperating sites)",
 }
 
